@@ -616,6 +616,46 @@ func main() {
 		}
 		sb.WriteString("]\n\n")
 	}
+	// write-sets: which non-local bases each program writes (operands must not be among them)
+	sb.WriteString("/-- For every translated program: the bases (receiver / parameters) it writes, locals excluded. -/\ndef writeSets : List (String × List Nat) := [\n")
+	for i, r := range results {
+		seen := map[string]bool{}
+		var ws []string
+		for _, in := range r.ins {
+			b, _ := normalize(in.dst)
+			if strings.HasPrefix(b, "local:") || seen[b] {
+				continue
+			}
+			seen[b] = true
+			ws = append(ws, "B_"+leanIdent(b))
+		}
+		sep := ","
+		if i == len(results)-1 {
+			sep = ""
+		}
+		fmt.Fprintf(&sb, "  (%q, [%s])%s\n", r.name, strings.Join(ws, ", "), sep)
+	}
+	sb.WriteString("]\n\n")
+	sb.WriteString("/-- Bases that are locals (temporaries) of some translated function. -/\ndef localBases : List Nat := [")
+	first := true
+	for _, b := range bases.names {
+		if strings.HasPrefix(b, "local:") {
+			if !first {
+				sb.WriteString(", ")
+			}
+			first = false
+			sb.WriteString("B_" + leanIdent(b))
+		}
+	}
+	sb.WriteString("]\n\n/-- All translated programs by name. -/\ndef programs : List (String × List Instr) := [\n")
+	for i, r := range results {
+		sep := ","
+		if i == len(results)-1 {
+			sep = ""
+		}
+		fmt.Fprintf(&sb, "  (%q, %s)%s\n", r.name, r.name, sep)
+	}
+	sb.WriteString("]\n\n")
 	sb.WriteString("/-- Names of the programs translated on this run. -/\ndef translated : List String := [")
 	for i, r := range results {
 		if i > 0 {
